@@ -216,10 +216,12 @@ class Evaluator:
         self.this_names = set(this_names)
         self.depth = depth
         self.opaque = []  # expressions that became opaque atoms (for reporting)
+        self.owner = None  # name of the class whose classmethod is being evaluated: `cls(...)` takes its constructor signature
 
     def child(self, env, this_names=None):
         e = Evaluator(env, self.const_of, self.func_of, this_names or self.this_names, self.depth + 1, fold=self.fold)
         e.opaque = self.opaque
+        e.owner = self.owner
         return e
 
     def atom_of(self, text, node=None):
@@ -398,6 +400,10 @@ class Evaluator:
             if args[0].is_const() and args[0].value().denominator == 1:
                 return args[0]
             return Term.atom(f"int({args[0].key()})")
+        if name == "tuple" and len(args) == 1 and not node.keywords:
+            k0 = args[0].key()
+            if k0.startswith("[") and k0.endswith("]") and len(args[0].p) == 1:
+                return Term.atom("tuple(" + k0[1:-1] + ")")  # tuple of a list whose elements are known
         if name in ("len", "len_") and len(args) == 1:  # construct's len_ is len on the context value
             return Term.atom(f"len({args[0].key()})")
         if name == "abs" and len(args) == 1 and args[0].is_const():
@@ -438,6 +444,8 @@ class Evaluator:
         kwd = {k.arg: self.ev(k.value).key() for k in node.keywords if k.arg}
         pos = [a.key() for a in args]
         cname = f.id if isinstance(f, ast.Name) else (f.attr if isinstance(f, ast.Attribute) else None)
+        if cname == "cls" and isinstance(f, ast.Name) and self.owner:
+            cname = self.owner
         params = SIGS.get(cname) if cname and not any(isinstance(a, ast.Starred) for a in node.args) else None
         if params is not None and kwd and len(pos) <= len(params):
             # f(a, q=c, p=b) with signature (x, p, q): the keywords that continue the positional prefix are rendered in place
